@@ -96,6 +96,7 @@ func explore(run *core.Run) {
 		run.Add("scenarios", 1)
 		run.Add("cached_states", st.States)
 		run.Add("pruned_decision_points", st.Pruned)
+		run.Add("states_explored_without_caching_table_full", st.CacheFull)
 		if len(st.Outcomes) > 1 {
 			run.Add("scenarios_with_several_outcomes", 1)
 		}
